@@ -7,7 +7,7 @@ from hypothesis import strategies as st
 from vt import core, gen
 from vt.core import Checker, lib, dense, fro
 
-RULE = ("Scalar expressions are generated as a chain of 0-2 tensor->tensor operations (+,-,* with another leaf, A@., .@A, "
+RULE = ("Scalar expressions are generated as a chain of 0-2 tensor->tensor operations (+,-,* with another leaf - same shape or a broadcast operand with fewer / size-1 modes -, A@., .@A, "
         "(A@A)@., scalar +,*,/ and reversed -, the same with a one-element tensor scalar that depends on tracked cores (x / dot(y,y)), unary -, mprod, diag round trip, full slicing, pad+slice) followed by a "
         "terminal (linear functional of full(), sum all/subset, dot full/axis, norm plain/squared, bilinear_form, "
         "apply_mask, mixed int/slice indexing, cat, pad, kron, rectangular mprod, rectangular TT-matrix product, "
@@ -22,7 +22,7 @@ FLOORS = {"quick": {"chain:2": 500, "grad_api": 300, "track:watch": 500, "operat
 ASSUMPTIONS = ["norm terminals are evaluated away from zero (non-differentiable there)", "real float64 only"]
 
 CHAIN_OPS = ["add", "sub", "mul", "matvec", "vecmat", "matmat_vec", "sadd", "smul", "sdiv", "rsub", "neg", "mprod", "diag_rt",
-             "slice_full", "pad_slice", "sdiv_dep", "smul_dep", "sadd_dep", "ssub_dep"]
+             "slice_full", "pad_slice", "sdiv_dep", "smul_dep", "sadd_dep", "ssub_dep", "mul_bc", "add_bc", "sub_bc"]
 TERMINALS = ["full_lin", "sum_all", "sum_subset", "dot", "dot_axis", "norm", "norm_sq", "bilinear", "mask", "slice_lin",
              "cat_lin", "pad_lin", "kron_lin", "mprod_rect", "rect_matvec", "dense_matvec", "layer"]
 
@@ -60,7 +60,7 @@ def strategy_case(draw):
     # tracking
     case["track_mode"] = draw(st.sampled_from(["direct", "watch"]))
     tr = {}
-    for leaf in ("x1", "x2", "A", "B"):
+    for leaf in ("x1", "x2", "A", "B", "x3"):
         mode = draw(st.sampled_from(["none", "all", "subset", "subset"]))
         if mode == "none":
             tr[leaf] = []
@@ -97,6 +97,9 @@ def build_leaves(T, case):
         "A": core.make_cores({"N": N, "M": N, "R": case["RA"], "dt": "f64", "mode": "gauss", "seed": case["seed"] + 2}),
         "B": core.make_cores({"N": N, "M": M, "R": case["RB"], "dt": "f64", "mode": "gauss", "seed": case["seed"] + 3}),
     }
+    k3 = 1 + case["seed"] % max(1, d - 1) if d > 1 else 1
+    N3 = [1 if (case["seed"] >> (j + 3)) & 1 and d > 1 else n for j, n in enumerate(N[d - k3:])]
+    c.cores["x3"] = core.make_cores({"N": N3, "R": [1] + [2] * (len(N3) - 1) + [1], "dt": "f64", "mode": "gauss", "seed": case["seed"] + 5})
     g = core.rng(case["seed"] + 4)
     c.g = g
     c.consts = {}
@@ -128,6 +131,10 @@ def evaluate(T, case, c, dense_mode):
         if o in ("add", "sub", "mul"):
             used.add("x2")
             cur = cur + L["x2"] if o == "add" else (cur - L["x2"] if o == "sub" else cur * L["x2"])
+        elif o in ("mul_bc", "add_bc", "sub_bc"):
+            # second operand with fewer (trailing-aligned) modes and size-1 modes: the broadcasting branches
+            used.add("x3")
+            cur = cur * L["x3"] if o == "mul_bc" else (cur + L["x3"] if o == "add_bc" else cur - L["x3"])
         elif o == "matvec":
             used.add("A")
             cur = mv(L["A"], cur) if dense_mode else L["A"] @ cur
@@ -286,10 +293,11 @@ def execute(case):
     tracked = []
     tt_leaves = {k: T.TT(list(v)) for k, v in c.cores.items()}
     for leaf, idxs in case["tracked"].items():
+        idxs = [i for i in idxs if i < len(c.cores[leaf])]
         if not idxs:
             continue
         if case["track_mode"] == "watch":
-            lib(lambda: T.grad.watch(tt_leaves[leaf], list(idxs)) if len(idxs) < d else T.grad.watch(tt_leaves[leaf]))
+            lib(lambda: T.grad.watch(tt_leaves[leaf], list(idxs)) if len(idxs) < len(c.cores[leaf]) else T.grad.watch(tt_leaves[leaf]))
         else:
             for i in idxs:
                 c.cores[leaf][i].requires_grad_(True)
